@@ -94,6 +94,37 @@ theorem acquire_reaches_target {c : Cfg} (hd : Dom c) (s : Sess) {tgt : Bytes}
   exact ⟨p, hp, fun q hq => simplePath_unique hdep q p _ tgt hq hp, hlen, by omega,
     acquirePriv_ok hd s haw ht hp hV⟩
 
+/-- the path is explicit: for levels passing the decidable tree check, the search returns
+`treePath` (up from the current level to the lowest common ancestor, then down to the target),
+for every iteration order -/
+theorem pathDFS_is_treePath {L : Levels} (h : isTree L = true) {o : Orders} (ho : o.Valid)
+    {cur tgt : Bytes} (hc : cur ∈ names L) (hg : tgt ∈ names L) :
+    pathDFS L o cur tgt = some (treePath L cur tgt) := by
+  obtain ⟨hp, hV⟩ := treePath_simple h hc hg
+  exact pathDFS_eq (tree_of_isTree h) ho hp hV
+
+/-- THE PROPERTY with the path made explicit: the device ends at the target having received
+exactly `expectedLog (treePath current target)` -/
+theorem acquire_log_is_treePath {c : Cfg} (hd : Dom c) (htree : isTree c.L = true) (s : Sess)
+    {tgt : Bytes} (haw : s.dev.awaiting = none) (hm : s.dev.mode ∈ names c.L)
+    (ht : tgt ∈ names c.L) :
+    acquirePriv c tgt s =
+      (none, { dev := { mode := tgt, awaiting := none,
+                        log := s.dev.log ++ expectedLog c (treePath c.L s.dev.mode tgt) },
+               cache := tgt, tick := s.tick + (treePath c.L s.dev.mode tgt).length }) := by
+  obtain ⟨hp, hV⟩ := treePath_simple htree hm ht
+  exact acquirePriv_ok hd s haw ht hp hV
+
+/-- the model's recursion fuel is not binding: the `count > 2·|levels|` exit of the Go loop always
+fires first, so `acquirePriv`'s `2·|levels| + 2` behaves like the unbounded `for` -/
+theorem loop_fuel_not_binding (c : Cfg) (tgt : Bytes) (s : Sess) (extra : Nat) :
+    acquireLoop c tgt (2 * c.L.length + 2 + extra) 0 s = acquireLoop c tgt (2 * c.L.length + 2) 0 s := by
+  induction extra with
+  | zero => rfl
+  | succ k ih =>
+    rw [← ih]
+    exact acquireLoop_fuel c tgt (2 * c.L.length + 2 + k) 0 s (by omega)
+
 /-- an unknown target is refused with a privilege error and nothing is sent (state unchanged) -/
 theorem acquire_unknown_target (c : Cfg) (s : Sess) {tgt : Bytes} (ht : tgt ∉ names c.L) :
     acquirePriv c tgt s = (some .privilege, s) :=
@@ -257,5 +288,7 @@ example :
       [([101], []), ([101], [1]), ([101], [7, 7]), ([112], [])] := by decide +kernel
 
 example : isPayload exLevels [115, 104] = true := by decide
+
+example : treePath exLevels [99] [116] = [[99], [112], [116]] := by decide +kernel
 
 end Scrapli.Priv.C04
